@@ -176,6 +176,10 @@ def truth_datas(nvars: int) -> list[Any]:
     return [V.enc(dict(zip(BOOL_VARS, bits))) for bits in itertools.product([True, False], repeat=nvars)]
 
 
+INFIX_OPS = ["==", "!=", "<", "<=", ">", ">=", "contains", "and", "or"]
+INFIX_DOMAIN = [1, True, False, "ab", "a"]
+INFIX_DATAS = [V.enc(dict(zip("abc", vs))) for vs in itertools.product(INFIX_DOMAIN, repeat=3)]
+
 STRING_LITS = ["", "a", "x y", 'q"uote', "it's", "back\\slash", "tab\there", "\\n", "é", "a\nb", "{{", "%}", "#", " lead", "%(x)s", "\\'", "k", "title", "..", "a..b", "(1..2)", "(", ")", "a)"]
 
 
@@ -235,6 +239,18 @@ def cases(ctx: core.Ctx):
         else:
             src = "{% if false %}{% elsif " + expr + " %}T{% else %}F{% endif %}"
         yield {"source": src, "datas": truth_datas(n), "kind": "logical"}
+    # every pair of infix operators over three operands, in each grouping, over a small value domain: associativity and precedence of the
+    # comparison / membership printer
+    j = 0
+    for op1, op2 in itertools.product(INFIX_OPS, INFIX_OPS):
+        for shape in ("(a {1} b) {2} c", "a {1} (b {2} c)", "a {1} b {2} c", "not (a {1} b) {2} c", "(a {1} b) {2} (c {1} a)"):
+            j += 1
+            if j % ctx.nshards != ctx.shard:
+                continue
+            expr = shape.replace("{1}", op1).replace("{2}", op2)
+            src = ["{% if " + expr + " %}T{% else %}F{% endif %}", "{{ 'T' if " + expr + " else 'F' }}", "{% assign r = 'T' if " + expr + " else 'F' %}{{ r }}"][j % 3]
+            yield {"source": src, "datas": INFIX_DATAS, "kind": "infix-operands"}
+    ctx.extra["infix_operator_pairs"] = len(INFIX_OPS) ** 2
     ctx.extra["boolean_trees_enumerated_depth"] = depth
     ctx.extra["boolean_trees"] = len(trees)
     for _ in range(ctx.budget(6000, 500_000)):
